@@ -216,6 +216,43 @@ theorem new_type_shares_none (shares : Mol → Mol → Bool) (reps : List Mol) (
     have := findRep_some_lt hf
     omega
 
+/-- **The processor is stateless**: one `NameMolType` object applied to several systems in a row
+names every system exactly as a freshly constructed processor with the same configuration names
+that system alone (no representative and no id survives a `run_system`) ... -/
+theorem processor_stateless (shares : Mol → Mol → Bool) (p : Proc) (syss : List (List Mol)) :
+    runHistory shares p syss = syss.map (nameMolTypes shares p.deduplicate) := by
+  induction syss with
+  | nil => rfl
+  | cons sys rest ih => simp only [runHistory, procStep, List.map_cons, ih]
+
+/-- ... and its configuration is unchanged afterwards. -/
+theorem processor_config_unchanged (shares : Mol → Mol → Bool) (p : Proc) (sys : List Mol) :
+    (procStep shares p sys).1 = p := rfl
+
+/-- **The topology writer is stateless**: `write_gmx_topology` called for several systems in one
+process writes for each what a single call writes (`moltype_written` and the counts do not leak). -/
+theorem writer_stateless {α} [DecidableEq α] (st : WriterState) (nss : List (List α)) :
+    writeHistory st nss = nss.map (fun names =>
+      ({ groups := groups names, includes := includes names, itps := itpWrites names } : TopOut α)) := by
+  induction nss with
+  | nil => rfl
+  | cons names rest ih => simp only [writeHistory, writeStep, List.map_cons, ih]
+
+theorem zip_map_self {α β γ} (f : α → β) (g : β × α → γ) (l : List α) :
+    ((l.map f).zip l).map g = l.map (fun x => g (f x, x)) := by
+  induction l with
+  | nil => rfl
+  | cons a t ih => simp [ih]
+
+/-- Consequently every system of a history (one processor object over all systems, then all
+systems written by one process) is observed exactly as if it had been processed and written
+alone: all single-system theorems of this file apply to each of them. -/
+theorem history_is_pointwise (close : Val → Val → Bool) (dedup : Bool) (syss : List (List Mol)) :
+    historyOut close dedup syss = syss.map (sysOut close dedup) := by
+  unfold historyOut
+  rw [processor_stateless, zip_map_self]
+  rfl
+
 /-! ## 5. `share_moltype_with` and the written atoms -/
 
 /-- **ExactAttrs**: numeric node attributes of the two molecules that the code's tolerant
